@@ -188,4 +188,11 @@ def rule_quoting_modes(ctx):
 
 from .common import rule_module_state  # noqa: E402
 
-RULES = [rule_dialect, rule_accepted_configurations, rule_newline, rule_quoting_modes, rule_module_state]
+def rule_write_rows_agrees_with_write_row(ctx):
+    """O12.6: writing many rows at once emits what writing them one by one emits (sibling agreement in the row writer)."""
+    from . import protocol
+
+    protocol.write_rows_agreement_table(ctx, "O12.6")
+
+
+RULES = [rule_dialect, rule_accepted_configurations, rule_newline, rule_quoting_modes, rule_write_rows_agrees_with_write_row, rule_module_state]
